@@ -991,6 +991,34 @@ theorem len_par_in_tail (eol : List Char) : ∀ (ps : List (List (List Char))) (
     · omega
     · have := len_par_in_tail eol ps P h; omega
 
+/-- the closed form for any decoration `lead` before the first line (` * ` on a line of its own, or a blank on the line of `/**`) -/
+theorem parseJavadocSpec_structured_gen (eol : List Char) (he : EolOk eol) (lead : List Char) (p : List (List Char)) (ps : List (List (List Char)))
+    (hltrim : ∀ x ∈ lead, isTrimChar x = true) (hlead : ∀ r, FailsIn parAt lead (renderPar eol p ++ r))
+    (hP : ∀ P ∈ p :: ps, P ≠ [] ∧ ∀ l ∈ P, LineOk l) :
+    parseJavadocSpec (lead ++ renderPar eol p ++ bodyTail eol ps) = intercalate ['\n'] ((p :: ps).map atJoin) := by
+  obtain ⟨hp1, hp2⟩ := hP p (by simp)
+  have hnonempty : ∀ P ∈ p :: ps, ∀ l ∈ P, l ≠ [] := fun P hPm l hl => ((hP P hPm).2 l hl).good.ne
+  -- the loop bounds
+  have hlen_body : (lead ++ renderPar eol p ++ bodyTail eol ps).length = lead.length + (renderPar eol p).length + (bodyTail eol ps).length := by
+    simp [List.length_append, Nat.add_assoc]
+  have hn1 : ps.length ≤ (lead ++ renderPar eol p ++ bodyTail eol ps).length + 1 := by
+    have := len_bodyTail eol ps; omega
+  have hn2 : ∀ P ∈ p :: ps, P ≠ [] ∧ (∀ l ∈ P, LineOk l) ∧ P.length ≤ (lead ++ renderPar eol p ++ bodyTail eol ps).length + 1 := by
+    intro P hPm
+    refine ⟨(hP P hPm).1, (hP P hPm).2, ?_⟩
+    have h1 := len_renderPar eol P (hnonempty P hPm)
+    rcases List.mem_cons.mp hPm with rfl | hm
+    · omega
+    · have := len_par_in_tail eol ps P hm; omega
+  unfold parseJavadocSpec
+  simp only
+  have hsplit := split_body eol he ps lead p ((lead ++ renderPar eol p ++ bodyTail eol ps).length + 1) hlead hp1
+    (fun l hl => (hp2 l hl).good)
+    (fun P hPm => ⟨(hP P (by simp [hPm])).1, fun l hl => ((hP P (by simp [hPm])).2 l hl).good⟩) hn1
+  rw [hsplit]
+  congr 1
+  exact pieces_norm eol he _ ps lead p hltrim hn2
+
 /-- **The closed form on structured bodies** (specification): lines joined by single blanks, paragraphs by newlines. -/
 theorem parseJavadocSpec_structured (eol : List Char) (he : EolOk eol) (p : List (List Char)) (ps : List (List (List Char)))
     (hP : ∀ P ∈ p :: ps, P ≠ [] ∧ ∀ l ∈ P, LineOk l) :
@@ -1005,29 +1033,16 @@ theorem parseJavadocSpec_structured (eol : List Char) (he : EolOk eol) (p : List
     obtain ⟨r', hr'⟩ := renderPar_head eol l0 ls0
     rw [hl0, hr', List.append_assoc]
     exact failsIn_par_lsep eol l0 (r' ++ r) he (hp2 l0 (by rw [hl0]; simp)).good
-  have hnonempty : ∀ P ∈ p :: ps, ∀ l ∈ P, l ≠ [] := fun P hPm l hl => ((hP P hPm).2 l hl).good.ne
-  -- the loop bounds
-  have hlen_body : (renderBody eol (p :: ps)).length = (lsep eol).length + (renderPar eol p).length + (bodyTail eol ps).length := by
-    simp [renderBody, List.length_append, Nat.add_assoc]
-  have hn1 : ps.length ≤ (renderBody eol (p :: ps)).length + 1 := by
-    have := len_bodyTail eol ps; omega
-  have hn2 : ∀ P ∈ p :: ps, P ≠ [] ∧ (∀ l ∈ P, LineOk l) ∧ P.length ≤ (renderBody eol (p :: ps)).length + 1 := by
-    intro P hPm
-    refine ⟨(hP P hPm).1, (hP P hPm).2, ?_⟩
-    have h1 := len_renderPar eol P (hnonempty P hPm)
-    rcases List.mem_cons.mp hPm with rfl | hm
-    · omega
-    · have := len_par_in_tail eol ps P hm; omega
-  unfold parseJavadocSpec
-  simp only
-  have hsplit := split_body eol he ps (lsep eol) p ((renderBody eol (p :: ps)).length + 1) hlead hp1
-    (fun l hl => (hp2 l hl).good)
-    (fun P hPm => ⟨(hP P (by simp [hPm])).1, fun l hl => ((hP P (by simp [hPm])).2 l hl).good⟩) hn1
-  have hbody : renderBody eol (p :: ps) = lsep eol ++ renderPar eol p ++ bodyTail eol ps := rfl
-  rw [← hbody] at hsplit
-  rw [hsplit]
-  congr 1
-  exact pieces_norm eol he _ ps (lsep eol) p (lsep_trim eol he) hn2
+  exact parseJavadocSpec_structured_gen eol he (lsep eol) p ps (lsep_trim eol he) hlead hP
+
+/-- the first line on the line of `/**` itself: `/** first␤ * second␤ */` -/
+theorem parseJavadoc_structured_same_line (eol : List Char) (he : EolOk eol) (p : List (List Char)) (ps : List (List (List Char)))
+    (hP : ∀ P ∈ p :: ps, P ≠ [] ∧ ∀ l ∈ P, LineOk l) :
+    parseJavadoc ([' '] ++ renderPar eol p ++ bodyTail eol ps) = intercalate ['\n'] ((p :: ps).map atJoin) := by
+  rw [parseJavadoc_eq_spec]
+  exact parseJavadocSpec_structured_gen eol he [' '] p ps (by decide)
+    (fun r => FailsIn_of_heads parAt _ _ (fun c hc t q => parAt_head c t q
+      (by intro e; subst e; revert hc; decide) (by intro e; subst e; revert hc; decide))) hP
 
 /-- … hence of the model of `parse_javadoc` itself -/
 theorem parseJavadoc_structured (eol : List Char) (he : EolOk eol) (p : List (List Char)) (ps : List (List (List Char)))
